@@ -165,7 +165,8 @@ def check(run):
         return ast.fix_missing_locations(RxCanon().visit(G._copy(e)))
     for fq, ref in REF.items():
         fi = prog.fn(fq)
-        loops = [n for n in fi.node.body if isinstance(n, ast.For)]
+        fbody = common.comp_as_loop(fi.node) or fi.node.body      # `return [hit(m) for m in finditer(..) if keep(m)]` is the same loop
+        loops = [n for n in fbody if isinstance(n, ast.For)]
         need(len(loops) == 1, f"anchor: {fq} has one match loop")
         lp = loops[0]
         need(isinstance(lp.target, ast.Name), f"anchor: {fq} loop variable")
@@ -180,7 +181,7 @@ def check(run):
         rewrite = [("regex.", "re."), ("M.start()", "M.span()[0]"), ("M.start(0)", "M.span()[0]"), ("M.end()", "M.span()[1]"), ("M.group(0)", "M.group()")]
         apps = [n for n in own_nodes(lp) if isinstance(n, ast.Expr) and isinstance(n.value, ast.Call) and isinstance(n.value.func, ast.Attribute)
                 and n.value.func.attr in ("append", "extend") and isinstance(n.value.func.value, ast.Name)]
-        rets = [n for n in fi.node.body if isinstance(n, ast.Return) and isinstance(n.value, ast.Name)]
+        rets = [n for n in fbody if isinstance(n, ast.Return) and isinstance(n.value, ast.Name)]
         apps = [a_ for a_ in apps if rets and a_.value.func.value.id == rets[-1].value.id]
         need(len(apps) == 1, f"anchor: {fq} appends to its result list in one place")
         env = dict(common.block_env(lp.body, apps[0], unpack=True) or {})
@@ -188,7 +189,9 @@ def check(run):
             env.pop("group", None)
         spec_az = G.Atomizer(is_int=isint)
         spec = G.f_and(*[G.f_not(spec_az.formula(canon(common.spec_expr(r)))) for r in ref])
-        az = G.Atomizer(subst={k: canon(v) for k, v in env.items()}, rename=ren, is_int=isint, rewrite=rewrite)
+        consts_ = {k_: v_ for k_, v_ in fi.module.assigns.items() if isinstance(v_, ast.Constant) and isinstance(v_.value, int) and not isinstance(v_.value, bool)
+                   and k_ not in fi.module.multi_assigned and k_ not in env}
+        az = G.Atomizer(subst={**consts_, **{k: canon(v) for k, v in env.items()}}, rename=ren, is_int=isint, rewrite=rewrite)
         az.pre = canon
         pc = G.reach(lp.body, apps[0], az)
         need(pc is not None, f"internal: cannot locate the append of {fq}")
